@@ -8,5 +8,6 @@ Next == /\ l <= Len(Trace)
         /\ l' = l + 1
         /\ LET e == Trace[l] IN
            (e.readok /\ \A i \in 1..Len(e.after) : e.after[i] = e.before)
+           \/ (~e.readok /\ e.mayreject)     \* a wire image the reader may refuse: nothing was returned, nothing to retain
            \/ PrintT(<<"BADLINE", l, <<IF ~e.readok THEN "read-failed" ELSE "changed-after-return">>>>)
 =============================================================================
